@@ -2,6 +2,7 @@
 # runs every seeded change against the check of the property it breaks; /repo is modified while this runs
 cd /verif
 for d in seeded/C*-m*; do
+  grep -q obsolete_since $d/meta.json && continue
   python3 tools/seed_run.py $(basename $d) 2>&1 | grep "exit"
 done
 .work/bin/extract > /dev/null
